@@ -186,6 +186,12 @@ def check(case):
         labels.append("corner")
     labels.append("ratio>=0.01" if ratio >= 0.01 else "ratio<0.01")
     if not mono:
+        # the condensation bound on the tail needs non-increasing terms; the exactly summed first T_EXACT rounds do not:
+        # if they alone exceed delta the property is violated whatever the tail is
+        if K * total > delta * (1 + 1e-9):
+            return Result.violation(f"C04:{algo}:union-bound-exceeds-delta",
+                                    f"miss probabilities summed exactly over the first {T_EXACT} rounds = {K * total:.6g} > delta = {delta} (K={K}, m={m}, "
+                                    f"noise_var={noise_var}, first-round term {first:.3g}; per-round terms are not monotone)", labels + ["non-monotone-schedule"])
         return Result.indet(labels + ["non-monotone-schedule"])
     if union > delta * (1 + 1e-9):
         return Result.violation(f"C04:{algo}:union-bound-exceeds-delta",
